@@ -478,13 +478,10 @@ func (g *Gen) Fill(v reflect.Value, p Params, depth int) {
 			}
 			if g.Rich {
 				var cands []int
-				for a := 1; a < t.NumField(); a++ {
+				for _, a := range real {
 					ft := t.Field(a).Type
 					for ft.Kind() == reflect.Ptr {
 						ft = ft.Elem()
-					}
-					if ft.Kind() == reflect.Struct && hasNoAlternatives(ft) {
-						continue
 					}
 					w := 1
 					if ft.Kind() == reflect.Struct && ft.NumField() > 1 || ft.Kind() == reflect.Slice {
